@@ -25,8 +25,8 @@ type Consumer struct {
 
 type Case struct {
 	Rsize     int
-	ProdPadA  int // producer: non-IO instructions between inc and r2owa
-	ProdPadB  int // after the r2owa
+	ProdPadA  int  // producer: non-IO instructions between inc and r2owa
+	ProdPadB  int  // after the r2owa
 	Burst     bool // the producer issues two writes back to back (r2owa r0; r2owa r1) in every iteration
 	Consumers []Consumer
 	Delays    map[string]int // opcode -> fixed extra delay (single-valued distribution)
